@@ -347,7 +347,7 @@ func runC10(b *mon.B) {
 	r := gen.New(uint64(b.Seed), 0xC10, uint64(b.Index))
 	caseNo := 0
 	nCfg := b.N(3, 40)
-	perCfg := b.N(120, 1300)
+	perCfg := b.NQ(120)
 	for ci := 0; ci < nCfg; ci++ {
 		w := c10Config(r)
 		ref, err := refsrv.Start(w.Cfg, refsrv.Options{ViaYAML: ci%2 == 0, Keys: w.Keys})
